@@ -1,7 +1,7 @@
 """C10 -- ToContext is a barrier: the next step sees every awaited result."""
 import itertools
 
-from pv import judges, plans, wcprog
+from pv import judges, nested, plans, wcprog
 
 ID = 'C10'
 TITLE = 'ToContext barrier'
@@ -14,7 +14,7 @@ RULE = ('workchains whose step registers n<=3 (thorough 4) awaitables (plain fut
         'outcome mixes value/exception/cancel (futures), finish/fail/kill (children); distinct by (program, plan); non-trivial when the barrier '
         'assertion was evaluated or a failure was delivered')
 ASSUMPTIONS = ['pause/play: the workchain paused while the items complete, then played (finer interleavings are C06)', 'children are processes that wait for the harness (so completion is controlled)']
-REQUIRED = ['barrier_checks', 'ctx_checks', 'failures/exc', 'failures/killed', 'failures/cancel', 'kinds/fut', 'kinds/child', 'kinds/oldchild', 'how/ret', 'how/call', 'terminated_before_registration', 'failure_while_paused']
+REQUIRED = ['barrier_checks', 'ctx_checks', 'failures/exc', 'failures/killed', 'failures/cancel', 'kinds/fut', 'kinds/child', 'kinds/oldchild', 'how/ret', 'how/call', 'terminated_before_registration', 'failure_while_paused', 'nested_runs', 'nested_barrier_checks', 'nested_registered_before_inner_run']
 BOUNDS = {'quick': 'n<=3 awaitables, all completion orders, placements sampled on a grid', 'thorough': 'n<=4, all placements'}
 
 
@@ -66,6 +66,8 @@ def _outcomes(kind):
 
 def gen_cases(tier, seed):
     rng = plans.rng_for(seed, 'c10')
+    for c in gen_nested():
+        yield c
     cap = 150 if tier == 'quick' else 1200
     for name, prog in sorted(_programs(tier).items()):
         cases = []
@@ -88,7 +90,9 @@ def gen_cases(tier, seed):
             for (idx, kind), o in zip(items, oc):
                 if kind == 'fut':
                     spec = _outcomes('fut')[o]
-                    val = ['value', 'v%d' % idx] if spec[0] == 'value' else (['exc', ('falsy-e%d' if rng.random() < 0.4 else 'e%d') % idx] if spec[0] == 'exc' else ['cancel'])
+                    # (where a key is assigned again by a later step the results are mappings with different keys, like the outputs
+                    # of two different children: the later result replaces the earlier one, it is not merged into it)
+                    val = ['value', {'r%d' % idx: idx} if name.startswith('reassign') else 'v%d' % idx] if spec[0] == 'value' else (['exc', ('falsy-e%d' if rng.random() < 0.4 else 'e%d') % idx] if spec[0] == 'exc' else ['cancel'])
                     acts.append(['complete', idx, val])
                 else:
                     acts.append(['child', idx, _outcomes('child')[o]])
@@ -127,7 +131,41 @@ def gen_cases(tier, seed):
             yield case
 
 
+def gen_nested():
+    for inner in ('wc', 'wc-noawait', 'proc'):
+        for where in ('first', 'mid', 'last'):
+            for depth in ((1, 2) if inner == 'wc' else (1,)):
+                for outer in itertools.chain(itertools.product(itertools.product(('call', 'ret'), ('soon', 'later')), repeat=1),
+                                             itertools.product(itertools.product(('call', 'ret'), ('soon', 'later')), repeat=2)):
+                    yield {'kind': 'nested', 'name': 'nested', 'inner': inner, 'where': where, 'depth': depth, 'outer': [list(o) for o in outer]}
+
+
+def run_nested(case):
+    r = nested.run(case)
+    V = judges.V
+    viol = []
+    obs = {'nested_runs': 1, 'nested_barrier_checks': len(r['log']), 'nested_registered_before_inner_run': int(case['where'] != 'first' and any(h == 'call' for h, _w in case['outer'])),
+           'barrier_checks': 0, 'ctx_checks': 0, 'failures': {}, 'kinds': {}, 'how': {}, 'early_completions': 0, 'final': {}, 'terminated_before_registration': 0, 'failure_while_paused': 0}
+    shape = '%s/%s/%s' % (case['inner'], case['where'], '+'.join('%s-%s' % tuple(o) for o in case['outer']))
+    if r['inconclusive'] is None:
+        if r['state'] != 'finished':
+            viol.append(V('nested-not-finished', 'nested-not-finished:%s:%s' % (r['state'], case['inner']), 'a workchain whose step runs another process to completion ended %s %s (%s)' % (r['state'], r['exception'], shape)))
+        want = len(case['outer']) + (case['depth'] if case['inner'] == 'wc' else 0)
+        if r['state'] == 'finished' and len(r['log']) != want:
+            viol.append(V('nested-steps', 'nested-steps:%s' % case['inner'], 'expected %d barrier observations, got %s (%s)' % (want, r['log'], shape)))
+        for who, key, done, val, exp in r['log']:
+            if not done:
+                viol.append(V('barrier-broken', 'barrier-broken:nested:%s:%s' % (who, case['where']), '%s step after the registering step entered with %s not terminated (%s)' % (who, key, shape)))
+            elif val != exp:
+                viol.append(V('ctx-wrong', 'ctx-wrong:nested:%s:%s' % (who, case['where']), '%s ctx[%s]=%r expected %r (%s)' % (who, key, val, exp, shape)))
+    res = {'viol': viol, 'obs': obs, 'inconclusive': r['inconclusive'], 'key': ['nested', shape, case['depth']], 'nontrivial': True}
+    res['sample'] = {'program': 'nested', 'shape': shape, 'log': r['log'], 'final_state': r['state']}
+    return res
+
+
 def run_case(case):
+    if case.get('kind') == 'nested':
+        return run_nested(case)
     rec = wcprog.run_case(case)
     viol = judges.judge_c10(rec)
     obs = {'barrier_checks': 0, 'ctx_checks': 0, 'failures': {}, 'kinds': {}, 'how': {}, 'early_completions': 0, 'final': {}, 'terminated_before_registration': 0, 'failure_while_paused': 0}
